@@ -65,22 +65,35 @@ def partyInfoField (c : Cbor) : Dec PartyInfo :=
   | .simple 23 => .ok ⟨none, none, none⟩
   | _ => .err
 
+/-- a bignum tag (2 / 3) anywhere in the tag prefix: fxamacker converts bignums that fit into integer targets (not modelled) -/
+def bignumTagged : Cbor → Bool
+  | .tag t v => t == 2 || t == 3 || bignumTagged v
+  | _ => false
+
 /-- a Go `uint` member (64-bit) -/
 def uintField (c : Cbor) : Dec Nat :=
+  if bignumTagged c then .unmodelled else
   match untag c with
   | .uint n => .ok n
   | .simple 22 => .ok 0
   | .simple 23 => .ok 0
+  | .simple 20 => .err
+  | .simple 21 => .err
+  | .simple n => .ok n           -- fxamacker fills integer targets from the other simple values (observed: f0 ↦ 16, f880 ↦ 128)
   | .float _ _ => .unmodelled
   | _ => .err
 
 /-- a Go `int` member (64-bit) -/
 def intField (c : Cbor) : Dec Int :=
+  if bignumTagged c then .unmodelled else
   match untag c with
   | .uint n => if n < 9223372036854775808 then .ok n else .err
   | .nint n => if n < 9223372036854775808 then .ok (-1 - (n : Int)) else .err
   | .simple 22 => .ok 0
   | .simple 23 => .ok 0
+  | .simple 20 => .err
+  | .simple 21 => .err
+  | .simple n => .ok n
   | .float _ _ => .unmodelled
   | _ => .err
 
